@@ -16,6 +16,8 @@ const ASCII_WORDS: &[&str] = &["hello", "world", "Returns", "the", "value.", "x"
 const ACCENT_WORDS: &[&str] = &["Größe", "é", "naïve", "señor", "Übung", "ça", "œuvre", "Ärger", "ñ", "façade"];
 const CJK_WORDS: &[&str] = &["漢字", "日本語", "中", "テスト", "한글", "文書"];
 const EMOJI_WORDS: &[&str] = &["😀", "👍", "🚀🚀", "e\u{301}", "🙂ok", "✓"];
+/// "words" that begin or end with a Unicode space character (they are text, not decoration)
+const USPACE_WORDS: &[&str] = &["\u{3000}字下げ", "x\u{a0}", "\u{a0}!", "\u{2003}em", "fin\u{202f}", "\u{3000}", "\u{feff}bom", "nb\u{a0}sp", "\u{85}", "\u{2028}ls"];
 const TAGS: &[&str] = &["@param", "@return", "@throws", "@deprecated", "@see", "@hide"];
 
 #[derive(Clone, Debug)]
@@ -36,6 +38,10 @@ fn word(rng: &mut Rng, st: &mut Stats) -> String {
             rng.pick_str(CJK_WORDS).to_string()
         }
         _ => {
+            if rng.chance(1, 3) {
+                st.inc("doc_words.with_unicode_space_characters");
+                return rng.pick_str(USPACE_WORDS).to_string();
+            }
             st.inc("doc_words.emoji_or_combining");
             rng.pick_str(EMOJI_WORDS).to_string()
         }
